@@ -79,12 +79,82 @@ def dump(c, out):
     out.append("end")
 
 
+def esc(line):
+    """one line as a token of the driver protocol (lean/Driver/C20.lean)"""
+    if line == "":
+        return "\\e"
+    r = []
+    for ch in line:
+        if ch == " ":
+            r.append("\\s")
+        elif ch == "\t":
+            r.append("\\t")
+        elif ch == "\\":
+            r.append("\\\\")
+        elif ord(ch) < 33 or ord(ch) > 126:
+            r.append("\\u%d;" % ord(ch))
+        else:
+            r.append(ch)
+    return "".join(r)
+
+
+def emit(c, out):
+    blk = []
+    dump(c, blk)
+    blk.append("hpwl %d" % hpwl(c))
+    out.extend(blk)
+
+
+def placement_job(t, out):
+    """wplp <id> <aux> <sol>: write_placement, then load_placement into a blanked re-read circuit;
+    lp <id> <aux> <pl>: load_placement of a given file.  Nothing is printed when read_ispd itself fails
+    (the plain job of the same case reports that)."""
+    kind, cid, aux, path = t
+    try:
+        c = coloquinte.Circuit.read_ispd(aux)
+    except Exception:
+        return
+    if kind == "wplp":
+        out.append("== %s.wp" % cid)
+        try:
+            c.write_placement(path)
+            text = open(path).read()
+            lines = text.split("\n")
+            if lines and lines[-1] == "":
+                lines.pop()
+            out.extend("sol " + esc(l) for l in lines)
+        except Exception as e:
+            out.append("throw:" + type(e).__name__)
+            return
+        out.append("== %s.lp" % cid)
+        try:
+            c2 = coloquinte.Circuit.read_ispd(aux)
+            n = c2.nb_cells
+            c2.cell_x = [0] * n
+            c2.cell_y = [0] * n
+            c2.cell_orientation = [coloquinte.CellOrientation.N] * n
+            c2.load_placement(path)
+            emit(c2, out)
+        except Exception as e:
+            out.append("throw:" + type(e).__name__)
+    else:
+        out.append("== %s.lp" % cid)
+        try:
+            c.load_placement(path)
+            emit(c, out)
+        except Exception as e:
+            out.append("throw:" + type(e).__name__)
+
+
 def main():
     jobs = sys.argv[1]
     out = []
     for line in open(jobs):
         t = line.split()
         if not t:
+            continue
+        if t[0] in ("wplp", "lp"):
+            placement_job(t, out)
             continue
         if t[0] == "bindings":
             out.append("== bindings")
